@@ -1,33 +1,57 @@
 import Generated.Tables
 /-!
-# C20 — frame condition: which shared objects joserfc's functions write
+# C20 — frame condition: which pre-existing objects joserfc's functions write
 
 `Generated.sharedWrites` is extracted from the AST of every module of `/repo/src/joserfc` on every
-run: each assignment, deletion, item store or mutating method call whose target is an attribute of
-`self`/`cls` or a module-level object, outside `__init__` and `register*`.
+run (`tools/extract.py:write_footprint`): each assignment, deletion, item store or mutating method
+call, outside `__init__` and `register*`, whose target is an attribute or item of `self`/`cls`, of a
+module-level name (or a name declared `global`), of a parameter, or of a local that aliases one of
+those (direct alias, attribute/item chain without a call, or loop variable over one); plus
+`setattr` calls and memoising decorators. `cls` is the enclosing class for `self`/`cls` writes,
+`<module>` for module-level objects, and the parameter's annotation as written for writes through a
+parameter.
 -/
 namespace Jose.C20Frame
 
-/-- The classes whose instances are created per call (message objects handed to one call only). -/
-def perCallClasses : List String :=
-  ["CompactSignature", "HeaderMember", "FlattenedJSONSignature", "GeneralJSONSignature", "CompactEncryption",
-   "FlattenedJSONEncryption", "GeneralJSONEncryption", "Recipient"]
+/-- Owners that are per-call message objects (created by, or handed to, exactly one call together with
+its own header and claims objects): the JWS/JWE message classes, and the parameter annotations that
+denote them (`EncryptionData` is the union of the three JWE message classes, `Claims` the caller's
+claims dict). -/
+def perCallOwners : List String :=
+  ["CompactSignature", "HeaderMember", "FlattenedJSONSignature", "GeneralJSONSignature", "CompactEncryption", "FlattenedJSONEncryption", "GeneralJSONEncryption", "Recipient", "EncryptionData", "GeneralJSONEncryption|FlattenedJSONEncryption", "list[Recipient[Key]]", "List[Recipient[Any]]", "List[Tuple[JWEKeyAgreement,Recipient[Any]]]", "Recipient[Any]", "Recipient[ECKey]", "Claims"]
 
 /-- **Frame**: no function of the library (other than `__init__` / `register*`) writes a registry
-table, a default registry, an algorithm-model attribute, a `KeySet` or any module-level object. Every
-write goes either into a per-call message object or into the two documented lazy slots of a key:
-the in-place fill of `_dict_value` and the thumbprint `kid` stored by `ensure_kid`. -/
+table, a default registry, an algorithm-model attribute, a `KeySet` or any module-level object, and
+there is no `global` statement, `setattr` or function-level memoisation. Every write goes either into
+a per-call message object or into the documented lazy slots of a key: the in-place fill of
+`_dict_value`, the thumbprint `kid` stored by `ensure_kid`, and the `cached_property public_key` of
+the three asymmetric key classes (an idempotent view of immutable key material). -/
 theorem c20_frame :
-    (Generated.sharedWrites.filter (fun e => !(perCallClasses.contains e.cls))).map (fun e => (e.cls, e.func, e.kind, e.target)) =
+    (Generated.sharedWrites.filter (fun e => !(perCallOwners.contains e.cls))).map (fun e => (e.cls, e.func, e.kind, e.target)) =
       [("BaseKey", "dict_value", "call.update", "self._dict_value"),
-       ("BaseKey", "ensure_kid", "assign", "self._dict_value['kid']")] := by decide
+       ("BaseKey", "ensure_kid", "assign", "self._dict_value['kid']"),
+       ("ECKey", "public_key", "decorator", "cached_property"),
+       ("RSAKey", "public_key", "decorator", "cached_property"),
+       ("OKPKey", "public_key", "decorator", "cached_property")] := by decide
 
 /-- The complete footprint (pinned: any new write anywhere in the package changes this list). -/
 theorem c20_footprint :
     Generated.sharedWrites.map (fun e => (e.cls, e.func, e.kind, e.target)) =
-      [("CompactSignature", "set_kid", "assign", "self.protected['kid']"),
+      [("GeneralJSONEncryption|FlattenedJSONEncryption", "encrypt_json", "assign", "recipient.recipient_key <- element of obj.recipients"),
+       ("GeneralJSONEncryption|FlattenedJSONEncryption", "encrypt_json", "assign", "recipient.sender_key <- element of obj.recipients"),
+       ("list[Recipient[Key]]", "_attach_recipient_keys", "assign", "recipient.recipient_key <- element of recipients"),
+       ("list[Recipient[Key]]", "_attach_recipient_keys", "assign", "recipient.sender_key <- element of recipients"),
+       ("CompactSignature", "set_kid", "assign", "self.protected['kid']"),
        ("HeaderMember", "set_kid", "assign", "self.header"),
        ("HeaderMember", "set_kid", "assign", "self.header['kid']"),
+       ("EncryptionData", "_perform_decrypt", "assign", "obj.plaintext"),
+       ("EncryptionData", "perform_encrypt", "assign", "obj.base64_segments['aad']"),
+       ("EncryptionData", "perform_encrypt", "assign", "obj.base64_segments['ciphertext']"),
+       ("EncryptionData", "perform_encrypt", "assign", "obj.base64_segments['iv']"),
+       ("EncryptionData", "perform_encrypt", "assign", "obj.base64_segments['tag']"),
+       ("List[Recipient[Any]]", "pre_encrypt_recipients", "assign", "recipient.encrypted_key <- element of recipients"),
+       ("List[Tuple[JWEKeyAgreement,Recipient[Any]]]", "post_encrypt_recipients", "assign", "recipient.encrypted_key <- element of tasks"),
+       ("Recipient[Any]", "__pre_encrypt_direct_mode", "assign", "recipient.encrypted_key"),
        ("CompactEncryption", "attach_recipient", "assign", "self.recipient"),
        ("CompactEncryption", "attach_recipient", "call.update", "self.protected"),
        ("FlattenedJSONEncryption", "add_recipient", "assign", "self.recipients"),
@@ -35,7 +59,12 @@ theorem c20_footprint :
        ("Recipient", "add_header", "assign", "self.header"),
        ("Recipient", "add_header", "call.update", "self.__parent.protected"),
        ("Recipient", "add_header", "call.update", "self.header"),
+       ("Recipient[ECKey]", "prepare_ephemeral_key", "assign", "recipient.ephemeral_key"),
        ("BaseKey", "dict_value", "call.update", "self._dict_value"),
-       ("BaseKey", "ensure_kid", "assign", "self._dict_value['kid']")] := by decide
+       ("BaseKey", "ensure_kid", "assign", "self._dict_value['kid']"),
+       ("ECKey", "public_key", "decorator", "cached_property"),
+       ("RSAKey", "public_key", "decorator", "cached_property"),
+       ("Claims", "convert_claims", "assign", "claims[k]"),
+       ("OKPKey", "public_key", "decorator", "cached_property")] := by decide
 
 end Jose.C20Frame
